@@ -99,7 +99,7 @@ func init() {
 			var us []core.Unit
 			for i := range zoo.Types {
 				t := &zoo.Types[i]
-				wk := tierPick(tier, 2, 3)
+				wk := tierPick(tier, 3, 4)
 				us = append(us, core.Unit{Name: "extract:" + t.Name, Cost: 10, Run: func(c *core.Ctx) {
 					// the other values u
 					var others []*ZooCase
